@@ -2,6 +2,7 @@ SPECIFICATION TSpec
 CONSTANTS
   NP = 4
   MaxCalls = 1000000
+  NFull = 4
   MaxOps = 100000
   LogOn = FALSE
   U = "trace"
